@@ -29,6 +29,22 @@ def table_seeded():
         by=', '.join(r.get('caught_by',[])) or note
         out.append(f"| {name} | {m['property']} | {summ} | {det} | {by} |")
     return '\n'.join(out)
+def table_benign():
+    try: res=json.load(open(f'{root}/benign/RESULTS.json'))
+    except Exception: res=[]
+    by={}
+    for r in res: by.setdefault(r['change'],[]).append(r)
+    out=['| change | properties checked | what it changes (property preserved) | alarm | lemmas left inconclusive by the refactor |','|---|---|---|---|---|']
+    for d in sorted(glob.glob(f'{root}/benign/*/')):
+        name=os.path.basename(d.rstrip('/'))
+        try: m=json.load(open(d+'meta.json'))
+        except Exception: continue
+        rs=by.get(name,[])
+        alarm='**yes**' if any(r.get('alarm') for r in rs) else ('no' if rs else 'not run')
+        inc=sorted(set(sum([r.get('incomplete',[]) for r in rs],[])))
+        summ=(m.get('summary','')[:200]).replace('|','/').replace('\n',' ')
+        out.append(f"| {name} | {', '.join(m.get('properties',[]))} | {summ} | {alarm} | {', '.join(inc)} |")
+    return '\n'.join(out)
 def table_lemmas():
     out=['| property | lemmas (quick tier unless marked) |','|---|---|']
     by={}
@@ -40,7 +56,7 @@ def table_lemmas():
     for p in sorted(by): out.append(f"| {p} | {', '.join(by[p])} |")
     return '\n'.join(out)
 s=open(f'{root}/DESIGN.md').read()
-for name,fn in [('findings',table_findings),('seeded',table_seeded),('lemmas',table_lemmas)]:
+for name,fn in [('findings',table_findings),('seeded',table_seeded),('lemmas',table_lemmas),('benign',table_benign)]:
     b=f'<!-- BEGIN GENERATED:{name} -->'; e=f'<!-- END GENERATED:{name} -->'
     if b in s:
         s=s[:s.index(b)+len(b)]+'\n'+fn()+'\n'+s[s.index(e):]
